@@ -186,13 +186,13 @@ def throttleKind : Kind where
     match l.op, l.args, l.res with
     | "sleep", [.int ms], _ =>
       if ms < 0 then { st := st, bad := some "throttle: negative sleep" } else
-      let m' := tstep st.cfg ch0 st.m (.advance ms.toNat)
+      let m' := tstepCode st.cfg ch0 st.m (.advance ms.toNat)
       { st := { st with m := m', mon := st.mon.onSleep ms.toNat },
         tags := if m'.grants.length > st.m.grants.length then ["throttle:trailing-timer-grants-blocked-next"]
                 else if m'.waiting && !st.m.waiting then ["throttle:trailing-timer-sets-waiting"]
                 else ["throttle:sleep"] }
     | "call", [], [.int _] =>
-      let m' := tstep st.cfg ch0 st.m .call
+      let m' := tstepCode st.cfg ch0 st.m .call
       let drop := !st.m.waiting && !st.m.stop && m'.grants.length == st.m.grants.length && !m'.waiting &&
         (m'.scheduled == st.m.scheduled)
       { st := { st with m := m', mon := st.mon.onCall, dropped := st.dropped || drop },
@@ -206,7 +206,7 @@ def throttleKind : Kind where
           else if st.m.scheduled.isSome then ["throttle:call-in-period-already-scheduled"]
           else ["throttle:call-in-period-dropped"] }
     | "cancel", [], [.int _] =>
-      let m' := tstep st.cfg ch0 st.m .cancel
+      let m' := tstepCode st.cfg ch0 st.m .cancel
       let rel := !st.m.blocked.isEmpty
       { st := { st with m := m', mon := st.mon.onCancel, released := st.released || rel },
         model := some [.int m'.now],
@@ -214,7 +214,7 @@ def throttleKind : Kind where
     | "next", [], [.int _, .int id, .atom r] =>
       if id < 0 then { st := st, bad := some "throttle: negative id" } else
       let id := id.toNat
-      let m' := tstep st.cfg ch0 st.m (.next id)
+      let m' := tstepCode st.cfg ch0 st.m (.next id)
       let ro : Option Bool := if r == "T" then some true else if r == "F" then some false else none
       let (c, mon') := st.mon.onNext id ro
       let mr : String :=
@@ -260,5 +260,24 @@ def throttleRaceKind : Kind where
       { st := st, model := some [.atom "ok"], tags := ["throttle:cancel-races-next"], nontrivial := true
         spec := if l.res == [.atom "ok"] then none else some "throttle:cancel-releases-blocked-next" }
     | _, _ => { st := st, bad := some s!"throttlerace: bad line {l.op}" }
+
+/-! ## throttle with a late trailing timer (kind `throttlelate`)
+
+`late n`: `n` rounds on the real clock with one P, arranged so that the trailing timer's callback runs only after a
+direct grant has begun a new period (see the harness).  By `Theorems/C20Late.lean: late_spacing` the code hands out
+consecutive permissions at least one period apart HOWEVER late the timer runs, so the only admitted answers are `ok`
+(some round was conclusive, none showed two permissions inside one period) and `none` (no verdict). -/
+def throttleLateKind : Kind where
+  σ := Unit
+  init := fun _ => some ()
+  step := fun st l =>
+    match l.op, l.args with
+    | "late", [.int _] =>
+      match l.res with
+      | .atom "none" :: _ => { st := st, tags := ["throttle:late-timer:no-verdict"] }
+      | _ =>
+      { st := st, model := some [.atom "ok"], tags := ["throttle:late-timer"], nontrivial := true
+        spec := if l.res == [.atom "ok"] then none else some "throttle:one-permission-per-period:late-timer" }
+    | _, _ => { st := st, bad := some s!"throttlelate: bad line {l.op}" }
 
 end GoguVerif.Kinds.C20
